@@ -124,8 +124,8 @@ def s_lin(terms):
 def _merge_lin(d):
     """merge all monomials that are a bare linear field into one linear field"""
     lin = [(m, c) for m, c in d.items() if len(m) == 1 and next(iter(m))[0].kind == 'lin' and next(iter(m))[1] == 1]
-    if len(lin) <= 1 and all(c == ONE for _, c in lin):
-        return d
+    if len(lin) <= 1:
+        return d              # a single linear field keeps its scalar coefficient outside the atom
     terms = []
     for m, c in lin:
         a = next(iter(m))[0]
@@ -457,13 +457,20 @@ def reduce(name, t, *a, **k):
 REBASED = {}        # base id -> the non-linear tensor it stands for
 
 
+REBASE_LOG = []     # bases in creation order (drivers reset it)
+
+
 def rebase(x):
     """continue linearly over a fresh base that stands for the non-linear tensor x"""
-    x = from_nl_if_linear(x)
-    if not getattr(x, 'nl', False):
-        return x
-    b = Base('nl%d' % len(REBASED), x.dims, dtype=x.dtype, role='rebased', defn=x)
-    REBASED[b.id] = x
+    lin = from_nl_if_linear(x)
+    if not getattr(lin, 'nl', False):
+        return lin
+    b = getattr(x, '_rebased', None)          # the same tensor object is re-based once
+    if b is None:
+        b = Base('nl%d' % len(REBASED), x.dims, dtype=x.dtype, role='rebased', defn=x)
+        REBASED[b.id] = x
+        REBASE_LOG.append(b)
+        x._rebased = b
     t = b.tensor(origin='fresh')
     t.requires_grad = x.requires_grad
     t.base_of = None
